@@ -7,6 +7,7 @@ import Dos.IO
 import Dos.IOImport
 import Dos.IOPackAllO
 import Dos.Wire
+import Dos.ImportCache
 
 namespace Dos.StoreDriver
 open Dos Dos.Wire
@@ -155,6 +156,13 @@ def stepLine (d : DState) (line : String) : DState × String :=
     match getCont d name with
     | none => (d, "bad-op no-such-container")
     | some c => (d, showState c.st)
+  | ["calls", name, budget, stream] =>
+    -- the direct-to-pack calls `import_objects` makes for objects arriving in this order, with this memory budget
+    match getCont d name, budget.toNat?, natList stream with
+    | some c, some b, some st =>
+      let calls := ImportCache.importCalls c.tab.size b st
+      (d, if calls.isEmpty then "-" else String.intercalate "|" (calls.map showNats))
+    | _, _, _ => (d, "bad-op")
   | ["views", name, ks] =>
     match getCont d name, natList ks with
     | some c, some ks => (d, showViews c.tab c.st ks)
